@@ -292,7 +292,9 @@ func (g *gen) funcDecl(name string, bodyDepth int) string {
 	case 0:
 		s += " " + g.typ(1)
 	case 1:
-		s += " (" + g.params(2, false) + ")"
+		if ps := g.params(2, false); ps != "" {
+			s += " (" + ps + ")"
+		}
 	case 2:
 		s += " (res int, err error)"
 	}
@@ -1310,11 +1312,40 @@ func genEngineCases(seed int64, n int, mode string) []Case {
 		}
 		patch := desc + header + p.meta + ic.meta + "@@\n" + ic.patchHead + body
 		note += ic.note
+		patches := []string{patch}
+		var chain []string
+		if g.mode == "c09" {
+			// a chain: change k+1 matches only what change k produced
+			texts := []string{patch}
+			cur := p
+			for step, n := 0, 1+g.r.Intn(2); step < n; step++ {
+				next := &pattern{kind: cur.kind, frag: cur.frag, holes: cur.holes, minus: cur.plus, meta: cur.meta}
+				next.plus = g.derivePlus(next)
+				if next.plus == next.minus {
+					break
+				}
+				texts = append(texts, "@@\n"+next.meta+"@@\n"+lineDiff(next.minus, next.plus))
+				cur = next
+			}
+			if g.chance(0.3) {
+				// a change in the middle that matches nothing
+				k := 1 + g.r.Intn(len(texts))
+				texts = append(texts[:k], append([]string{"@@\n@@\n-zzzNeverMatches(1)\n+zzz(2)\n"}, texts[k:]...)...)
+			}
+			if g.chance(0.5) {
+				patches = []string{strings.Join(texts, "\n")}
+			} else {
+				patches = texts
+			}
+			note += fmt.Sprintf(" chain%d", len(texts))
+			chain = texts
+		}
 		cases = append(cases, Case{
 			ID:      fmt.Sprintf("gen/%d/%d", seed, len(cases)),
-			Patches: []string{patch},
+			Patches: patches,
 			Src:     src,
 			Note:    note,
+			Chain:   chain,
 		})
 	}
 	return cases
